@@ -81,6 +81,10 @@ Begin ==
   /\ rowsOk' = TRUE
   /\ UNCHANGED nruns
 
+PosOrUnderflow(x, field) ==
+  \/ IsPos(x)
+  \/ (FEq(x, FZero) /\ info.valid /\ FGe(info[field], FZero) /\ FLt(info[field], c.tiny))
+
 TSaveScalars ==
   /\ IsEv("SaveScalars") /\ SaveScalars
   /\ Ev.iter = iter
@@ -98,7 +102,13 @@ TUpdate ==
             /\ FSame(e.prev_gap_abs, pinfo.gap_abs) /\ FSame(e.prev_gap_rel, pinfo.gap_rel)
             /\ FSame(e.prev_cost_p, pinfo.cost_p) /\ FSame(e.prev_cost_d, pinfo.cost_d)
        \* C07: homogenisation scalars positive at every iterate
-       /\ P("C07") => (IsPos(e.tau) /\ IsPos(e.kappa))
+       \* (positive up to rounding: a scalar that has decayed below 1e-300 may underflow to +0.0)
+       /\ P("C07") => (PosOrUnderflow(e.tau, "tau") /\ PosOrUnderflow(e.kappa, "kappa"))
+       \* C07: slack and dual iterates strictly inside K and K* (observer margins on the internal
+       \* iterate; exact for nonnegative cones, up to rounding for the others)
+       /\ (P("C07") /\ e.has_margins) =>
+            /\ IsPos(e.smin_nn) /\ IsPos(e.zmin_nn)
+            /\ FGt(e.smin_o, e.interior_floor) /\ FGt(e.zmin_o, e.interior_floor)
        \* the step length recorded for this pass is in [0,1]
        /\ P("C07") => (FGe(e.alpha, FZero) /\ FLe(e.alpha, FOne))
        /\ (e.alpha_zero <=> alphaZero)
